@@ -1,5 +1,6 @@
 import ExecModel.Proofs.SysVal
 import ExecModel.Proofs.SysCancel
+import ExecModel.Proofs.SysOnce
 /-!
   C01 — Result fidelity: each future yields exactly its own call's value.
 
@@ -49,6 +50,11 @@ theorem value_stable {script : List Cmd} {s s' : State Val Err}
     (hr : run cfg eval cancelErr s ls = some s') {i : Nat} {v : Val} (hf : futOf s i = .finished v) :
     futOf s' i = .finished v :=
   (started_never_cancelled cfg eval cancelErr ls (core_reachable cfg eval cancelErr h) hr i).2.2.1 v hf
+
+/-- every accepted call is executed at most once: the hand-over log has no duplicates -/
+theorem executed_at_most_once {script : List Cmd} {s : State Val Err}
+    (h : Reachable cfg eval cancelErr script s) : s.sentLog.Nodup :=
+  Sys.sent_at_most_once cfg eval cancelErr h
 
 /-! Non-vacuity: two workers, the second call finishes first; each future gets its own value. -/
 def exCfg : Cfg := { resolver := true, block := some 2, calls := [{}, {}, { deps := [0, 1] }] }
